@@ -175,6 +175,18 @@ def run_bounds(case, viol, obs, keys):
         sig = "C12/queued-bounds/" + ("lb-queue-overwrites-ub" if any(gu_[i] != want_u[i] for k, i, _ in ops if k == "lb") else ("repeated-request-drops-batch" if dup else "wrong-bounds"))
         viol.append({"sig": sig, "msg": f"initial lb={lbs} ub={ubs}, queued {ops}: column bounds after optimize() lower={gl[:n]} upper={gu_[:n]}, requested lower={want_l} upper={want_u}"})
         return
+    # creation bounds given as ONE scalar of any real number type (the models pass values taken from graph attributes, which are
+    # numpy scalars as soon as a graph is built from arrays): the created columns must carry exactly that bound
+    import numpy as np, fractions
+    s2 = SolverWrapper(**SO)
+    mk = rng.choice([int, float, np.int64, np.int32, np.float64, np.float32, fractions.Fraction])
+    L, U = mk(rng.randint(0, 3)), mk(rng.randint(4, 40))
+    y = s2.add_variables(list(range(3)), "y", lb=L, ub=U, var_type=rng.choice(["integer", "continuous"]))
+    s2.set_objective(s2.quicksum(y[i] for i in range(3)), sense="maximize"); s2.optimize()
+    _, yl, yu = lp_cols(s2)
+    obs["c12.scalar_creation_bounds_checked"] += 1
+    if yl[:3] != [float(L)] * 3 or yu[:3] != [float(U)] * 3:
+        viol.append({"sig": f"C12/creation-bounds/scalar-of-type-{mk.__name__}-ignored", "msg": f"add_variables(lb={L!r}, ub={U!r}) created columns with lower={yl[:3]} upper={yu[:3]}"})
     feas = all(l <= u for l, u in zip(want_l, want_u))
     if feas and s.get_model_status() != "kOptimal":
         viol.append({"sig": "C12/queued-bounds/feasible-model-not-optimal", "msg": f"{ops}: status {s.get_model_status()}"})
